@@ -45,10 +45,6 @@ def install_bitstream_limits():
         r = real_sp(serdes, state)
         if state["slices_x"] * state["slices_y"] > L["max_slices"]:
             raise vc2run.OutOfScope("slices")
-        if state.get("slice_bytes_numerator", 0) > (1 << 20) * max(1, state.get("slice_bytes_denominator", 1)):
-            raise vc2run.OutOfScope("slice bytes")
-        if state.get("slice_prefix_bytes", 0) > 1024 or state.get("slice_size_scaler", 0) > 1024:
-            raise vc2run.OutOfScope("prefix/scaler")
         return r
 
     # keep decorations (context_type) of the original by copying attributes
